@@ -66,7 +66,7 @@ var c09Fes = []string{"plain", "log", "check", "sugarw", "sugarf", "sugar", "sug
 func c09Gen(r *Rand, tier string, emit func(op any)) {
 	n, maxActs := 600, 40
 	if tier == "thorough" {
-		n, maxActs = 3000, 200
+		n, maxActs = 12000, 120
 	}
 	// the F8 shape and its neighbours first: a fresh (never used) lazily-derived logger shared by workers that log at once
 	for _, g := range []int{2, 4, 8} {
